@@ -44,18 +44,18 @@ func fetchKeys(iterator func(string) ([]string, string, error), keyBatchChan cha
 			return
 		}
 
-		if len(ks) == 0 {
-			break
-		}
-
-		select {
-		case keyBatchChan <- keyBatchEvent{keys: ks}:
-		case <-doneChan:
+		// a page may hold no key at all (e.g. when all its keys have been filtered out):
+		// the scan only ends when the store reports that there is no next page
+		if len(ks) > 0 {
 			select {
-			case keyBatchChan <- keyBatchEvent{err: status.ErrInterrupted}:
-			default:
+			case keyBatchChan <- keyBatchEvent{keys: ks}:
+			case <-doneChan:
+				select {
+				case keyBatchChan <- keyBatchEvent{err: status.ErrInterrupted}:
+				default:
+				}
+				return
 			}
-			return
 		}
 
 		if next == "" {
